@@ -522,7 +522,7 @@ class NoFragmentCyclesChecker(ValidationVisitor):
                 # for one fragment. This line and the fact that we keep one
                 # path per fragment make it so that we only report one.
                 if inner in acc:
-                    break
+                    continue
                 acc[inner] = path
                 _search(inner, acc, path + [inner])
 
